@@ -388,6 +388,7 @@ type variantSpec struct {
 	Order []int  `json:"order,omitempty"` // merge: permutation of packet indices
 	At    int    `json:"at,omitempty"`    // insert: position
 	K     string `json:"k,omitempty"`     // insert: null | afonly | tei
+	N     int    `json:"n,omitempty"`     // insert: number of copies (0 = one); long gaps between two packets of a PID
 	PID   int    `json:"pid,omitempty"`   // insert: PID of the afonly/tei packet; corrupt: the corrupted PID
 	Mode  string `json:"mode,omitempty"`  // corrupt: dropall | dropsome | garbage | tei
 }
@@ -430,14 +431,18 @@ func runMerge(sc *streamScenario, vs []variantSpec, rec *recorder) {
 		case "insert":
 			f := pktSpec{PID: v.PID, K: v.K, CC: rg.intn(16)}
 			fb := packetBytes(&f, nil, rg)
+			many := fb
+			for k := 1; k < v.N; k++ {
+				many = append(many, fb...)
+			}
 			for i := range bs.pkts {
 				if i == v.At {
-					s = append(s, fb...)
+					s = append(s, many...)
 				}
 				s = append(s, pk(i)...)
 			}
 			if v.At >= len(bs.pkts) {
-				s = append(s, fb...)
+				s = append(s, many...)
 			}
 			v.PID = -1
 		case "corrupt":
